@@ -468,6 +468,12 @@ func c07one(rc *sim.RunCtx, hist []*TxSpec, target int, coldSchema, seqVal bool,
 		ff := copyFields(f)
 		ff["when"] = when
 		a, b := diffSets(refSnaps[i].dev, s.dev)
+		if oe := orphanEntries(hist, target); len(oe) > 0 {
+			if a2, b2 := dropUnder(w, a, oe), dropUnder(w, b, oe); len(a2)+len(b2) < len(a)+len(b) {
+				rc.Probe("orphan-mixed-paths-left-out")
+				a, b = a2, b2
+			}
+		}
 		if len(a)+len(b) > 0 {
 			// is the difference nothing but key leaves of list entries that are on the device in addition?
 			keyOnly := len(a) == 0
@@ -517,6 +523,61 @@ func c07one(rc *sim.RunCtx, hist []*TxSpec, target int, coldSchema, seqVal bool,
 	}
 	_ = sort.Strings
 	return true
+}
+
+// orphanEntries returns the list-entry prefixes (and plain leaf paths) of what the intents that transaction #target removes
+// with the orphan flag had defined before. What an orphan delete leaves on the device inside a list entry that another intent
+// of the same transaction deletes is not specified (C01's statement leaves it open) and follows map iteration order inside
+// data-server; the comparison with the fault-free run leaves those paths out when the transaction mixes orphan and other edits.
+func orphanEntries(hist []*TxSpec, target int) []world.Path {
+	var out []world.Path
+	if len(hist[target].Intents) < 2 {
+		return nil
+	}
+	for _, is := range hist[target].Intents {
+		if !is.Orphan {
+			continue
+		}
+		for i := target - 1; i >= 0; i-- {
+			found := false
+			for _, prev := range hist[i].Intents {
+				if prev.Name == is.Name && !prev.Delete {
+					for _, l := range prev.Leaves {
+						if pre := l.Path.ListEntryPrefixes(); len(pre) > 0 {
+							out = append(out, pre[0])
+						} else {
+							out = append(out, l.Path)
+						}
+					}
+					found = true
+				}
+			}
+			if found {
+				break
+			}
+		}
+	}
+	return out
+}
+
+func dropUnder(w *world.World, items []string, prefixes []world.Path) []string {
+	if len(prefixes) == 0 {
+		return items
+	}
+	var out []string
+	for _, e := range items {
+		p := mustPath(w, strings.SplitN(e, " = ", 2)[0])
+		covered := false
+		for _, pre := range prefixes {
+			if p.HasPrefix(pre) {
+				covered = true
+			}
+		}
+		if !covered {
+			out = append(out, e)
+		}
+	}
+	return out
 }
 
 // mergeParentsOnly: the device holds nothing more than key leaves of list entries and bare presence containers in addition -
